@@ -148,6 +148,7 @@ def run_literal(el, w, unchecked, tier):
             combos.append(sh)
     if el == B:
         combos.append(('opaque',) * 9); combos.append(('true', 'opaque', 'false', 'false', 'true', 'opaque', 'true', 'true', 'local', 'opaque'))
+        combos.append(('opaque',) * 8); combos.append(('true', 'false') * 8)          # whole bytes exactly: 8 and 16 elements
     # elements whose own evaluation needs temporaries on the frame while the new array is already allocated below them
     combos += [('nested',), ('opaque', 'nested'), ('nested', 'opaque', 'nested')]
     for sh in combos:
